@@ -8,7 +8,7 @@ TRUST = ("Trusted base: rustc/cargo and the std, futures 0.3.26 and tokio 1.26 l
 CHECKS = {
  "C01": dict(level="exploration", engine="R", design="6/C01",
    technique="differential property-based testing: proptest-driven typed chain generator, each chain compiled twice in one binary (through the real proc-macro and as the documented method chain with the same operand text) and run on generated inputs; results, callback traces and event multisets compared",
-   text="2 640 (quick) / 26 400 (thorough) typed chains over Option / Result / iterators / tuples / scalars, program i forced to contain operator spelling i mod 22 under macro name i mod 12, operands in six shapes, `~` at random positions, operator-bearing initial values; each runs on 48-128 inputs incl. None / Err / empty. A macro side that does not compile while the reference does is a violation; a reference side that does not compile is a generator bug (exit 2). One genuine defect found and fixed (initial value with a top-level operator was not parenthesised). Async macros are exercised with sync chains closed by `-> ready`; chains over real futures / streams are not generated."),
+   text="2 640 (quick) / 26 400 (thorough) typed chains over Option / Result / iterators / tuples / scalars, program i forced to contain operator spelling i mod 22 under macro name i mod 12, operands in six shapes, `~` at random positions, operator-bearing initial values; each runs on 48-128 inputs incl. None / Err / empty. A macro side that does not compile while the reference does is a violation; a reference side that does not compile is a generator bug (exit 2). One genuine defect found and fixed (initial value with a top-level operator was not parenthesised). In the async macros half of the chains run over real (immediately ready) futures and streams, half are sync chains closed by `-> ready`."),
  "C02": dict(level="exploration", engine="R", design="6/C02",
    technique="differential property-based testing: typed chains with program i forced to contain wrapper operator (i/3) mod 10 in closing mode i mod 3, against the hand-nested method chain `.x(|v| v inner...) rest`",
    text="Inner chains are generated goal-directed for the closure type each of the ten wrapper operators needs, nesting depth <= 3, empty bodies, inner block captures, explicit `<<<`, implicit close at a step end and at the branch end, operators after `<<<`; all 12 macro names. Open known finding: in try-async macros an error-side wrapper at the start of a step >= 1 whose body begins with a member access does not compile (error type lost by the Ok re-wrap); that class is excluded by construction."),
